@@ -161,12 +161,13 @@ example : (MergeAll.run (MergeAll.init [.cold [.int 1] .complete] 0)
       [.outerNext 0, .outerComplete]).2.map MergeAll.Out.toNotif = [] := by decide
 
 /-- group_by behind `take 1` on the outer stream: the source goes on after the
-    outer stream completed, a second terminal is swallowed. -/
+    outer stream completed; its completion reaches the announced group (and is
+    swallowed by `take` on the outer stream), a second terminal is swallowed. -/
 example : (GroupBy.World.run (fun v => v) id (GroupBy.World.init [.take 1 0 true] [])
       [.emit (.next (.int 1)), .emit (.next (.int 2)), .emit (.next (.int 1)), .emit .complete,
        .emit (.next (.int 1)), .emit (.error 4)]).2 =
     [.outer (.next (.int 1)), .outer .complete, .grp (.int 1) (.next (.int 1)),
-     .grp (.int 1) (.next (.int 1))] := by decide
+     .grp (.int 1) (.next (.int 1)), .grp (.int 1) .complete] := by decide
 
 example : (GroupBy.World.run (fun v => v) List.reverse (GroupBy.World.init [] [])
       [.emit (.next (.int 1)), .emit (.next (.int 2)), .emit (.error 4),
